@@ -1,11 +1,21 @@
-(* C03 - Guards can veto: a cancelled transition is never applied. Theorems only. Vocabulary: Ready cfg s a = the machine is at a point where requests are processed (or between API calls) with state a < n active, registry.requested = INVALID, the outstanding request (if any) names a state, the plan is well formed; Inv = the same without naming a. loop_rounds = the guard rounds the substitution loop executes (ghost-instrumented copy of the loop, proved equal to it: transitions_loop_g_erase), each with its pending transition, whether it was cancelled, and whether it was dropped by applyRequest's same-destination rule; last_survivor = the pending transition of the last round neither cancelled nor dropped; rounds_shape / guard_round describe the events of the rounds (exit guard of the active state, then - unless it cancelled - entry guard of the destination; every guard view shows that round's pending transition and the survivor so far); change a a' l = the lifecycle events exit(a);enter(a') | reenter(a) | ...; quiet a l = no enter/exit/reenter in l and every view shows a active. *)
+(* C03 - Guards can veto: a cancelled transition is never applied. Theorems only. Vocabulary: Ready cfg s a = the
+   machine is at a point where requests are processed (or between API calls) with state a < n active,
+   registry.requested = INVALID, the outstanding request (if any) names a state, the plan is well formed; Inv = the
+   same without naming a. loop_rounds = the guard rounds the substitution loop executes (ghost-instrumented copy of the
+   loop, proved equal to it: transitions_loop_g_erase), each with its pending transition, whether it was cancelled, and
+   whether it was dropped by applyRequest's same-destination rule; last_survivor = the pending transition of the last
+   round neither cancelled nor dropped; rounds_shape / guard_round describe the events of the rounds (exit guard of the
+   active state, then - unless it cancelled - entry guard of the destination; every guard view shows that round's
+   pending transition and the survivor so far); change a a' l = the lifecycle events exit(a);enter(a') | reenter(a) |
+   ...; quiet a l = no enter/exit/reenter in l and every view shows a active. *)
 From Coq Require Import List Arith Bool NArith.
 From FFSM2 Require Import Model.TaskList Model.BitArray Model.BitStream Model.Plan Model.Ancestors Model.Machine
   Proofs.BitArrayProofs Proofs.MachineFrame Proofs.MachinePlan Proofs.MachineLife Proofs.GuardProofs Proofs.CycleProofs Proofs.PlanStep
-  Proofs.SerialProofs Proofs.LogProofs Proofs.MachineTop.
+  Proofs.SerialProofs Proofs.LogProofs Proofs.MachineTop Model.Multi Generated.InitFacts Proofs.ConstructProofs Proofs.LifeMonitor Proofs.ActivationRounds Proofs.IndexSafety Proofs.FeatureProofs.
 Import ListNotations.
 
-(* a destination that is not the last survivor's is not the active state afterwards: a request cancelled by a guard is not applied on account of that request *)
+(* a destination that is not the last survivor's is not the active state afterwards: a request cancelled by a guard is
+   not applied on account of that request *)
 Theorem C03_cancelled_never_entered :
   forall (P : Type) (cfg : config) (orc : oracle P),
          wf_cfg cfg ->
@@ -60,7 +70,8 @@ Theorem C03_round_cancelled_iff_cancel_action :
 Proof. exact (round_cancelled_iff). Qed.
 Print Assumptions C03_round_cancelled_iff_cancel_action.
 
-(* the exit guard of the active state is consulted first; if it cancelled, the entry guard is not consulted; otherwise the entry guard of the destination is *)
+(* the exit guard of the active state is consulted first; if it cancelled, the entry guard is not consulted; otherwise
+   the entry guard of the destination is *)
 Theorem C03_exit_guard_first_and_short_circuit :
   forall (P : Type) (cfg : config) (a d : nat) (cur pend : transition P) (c : bool) (l : list (event P)),
          guard_round P cfg a d cur pend c l ->
@@ -72,7 +83,9 @@ Theorem C03_exit_guard_first_and_short_circuit :
 Proof. exact (exit_cancel_short_circuit). Qed.
 Print Assumptions C03_exit_guard_first_and_short_circuit.
 
-(* the events of the substitution loop are exactly those of its rounds (rounds_shape): no enter/exit/reenter between guards, every guard view shows the round's pending transition and the survivor so far, the next round's pending transition is the request written inside this round's guards (next_pend) *)
+(* the events of the substitution loop are exactly those of its rounds (rounds_shape): no enter/exit/reenter between
+   guards, every guard view shows the round's pending transition and the survivor so far, the next round's pending
+   transition is the request written inside this round's guards (next_pend) *)
 Theorem C03_rounds_and_their_events :
   forall (P : Type) (cfg : config) (orc : oracle P) (PI : plan_data P -> Prop),
          plan_inv_ok P cfg PI ->
@@ -85,7 +98,8 @@ Theorem C03_rounds_and_their_events :
 Proof. exact (round_events_proj). Qed.
 Print Assumptions C03_rounds_and_their_events.
 
-(* a request made from inside a guard becomes the pending transition of the next round (it is evaluated, not applied blindly) *)
+(* a request made from inside a guard becomes the pending transition of the next round (it is evaluated, not applied
+   blindly) *)
 Theorem C03_fresh_round_for_guard_requests :
   forall (P : Type) (cfg : config) (orc : oracle P) (f : nat) (cur : transition P) 
            (s : mstate P) (r' : round P) (rs' : list (round P)),
